@@ -8,7 +8,41 @@ recorded operation reveals.  The exact per-lane chains (dq_state writes by old/n
 give each chained action its position.  Trusted part (Coq): HLaneR.sched executes the actions strictly: an action is taken
 only if it is a step of the model that is enabled, produces the recorded outcome and respects the chains; the round is
 reproduced iff all actions are consumed, and the model must end in the recorded final words with every list empty."""
-import replay as rp
+
+
+def chain(events, start, old_of, new_of, thr_of, seq_of, limit=400000):
+    """order `events` so that old(e_k) = new(e_{k-1}) (old(e_0) = start), keeping every thread's program order (events of one
+    thread appear in program order in the input); depth-first with the recorder's stamp as the preference.
+    returns (ordered list or None, value reached)"""
+    byth = {}
+    for e in events:
+        byth.setdefault(thr_of(e), []).append(e)
+    pos = {t: 0 for t in byth}
+    order, cur, steps = [], start, 0
+    stack = []
+    n = len(events)
+    while len(order) < n:
+        cands = sorted([byth[t][pos[t]] for t in byth if pos[t] < len(byth[t]) and old_of(byth[t][pos[t]]) == cur], key=seq_of)
+        stack.append([cands, 0, cur])
+        while True:
+            steps += 1
+            if steps > limit or not stack:
+                return None, cur
+            top = stack[-1]
+            if top[1] < len(top[0]):
+                e = top[0][top[1]]
+                top[1] += 1
+                order.append(e)
+                pos[thr_of(e)] += 1
+                cur = new_of(e)
+                break
+            stack.pop()
+            if not order:
+                return None, cur
+            e = order.pop()
+            pos[thr_of(e)] -= 1
+            cur = stack[-1][2] if stack else start
+    return order, cur
 
 PCODE = {"PA_xchg": 1, "PA_tpush": 8, "PW_lock": 9, "PW_tail": 10, "PW_head": 11, "PW_pop": 12, "PW_unlock": 21, "PW_xor": 22,
          "PW_finish": 23}
@@ -132,7 +166,7 @@ def round_actions(run, rnd, sites):
     for l, d in lanes.items():
         ws = [e for thr in per for (e, c) in per[thr] if c[0] == "st" and c[1] == l and c[3] in ("cas", "xor") and c[6]]
         newof = {id(e): (e.b if e.kind == 5 else e.a ^ e.b) for e in ws}
-        order, cur = rp.chain(ws, d["init"], lambda e: e.a, lambda e: newof[id(e)], lambda e: e.thr, lambda e: e.seq)
+        order, cur = chain(ws, d["init"], lambda e: e.a, lambda e: newof[id(e)], lambda e: e.thr, lambda e: e.seq)
         if order is None:
             raise Abort("dq_state writes of lane %d do not chain from the initial word" % l)
         if cur != d["final"]:
@@ -140,7 +174,7 @@ def round_actions(run, rnd, sites):
         for k, e in enumerate(order):
             st_idx[id(e)] = k
         ts = [e for thr in per for (e, c) in per[thr] if c[1] == l and (c[0] == "xchg" or (c[0] == "tailcas" and c[3] and e.b == 0))]
-        order, cur = rp.chain(ts, 0, lambda e: e.a, lambda e: e.b, lambda e: e.thr, lambda e: e.seq)
+        order, cur = chain(ts, 0, lambda e: e.a, lambda e: e.b, lambda e: e.thr, lambda e: e.seq)
         if order is None or cur != 0:
             raise Abort("tail exchanges of lane %d do not chain back to an empty list" % l)
         n, q = 0, []
